@@ -96,6 +96,48 @@ func c25Gen(r *core.Rand, tier string) any {
 		en[k] = !sc.NoFault && r.Bool(0.6)
 	}
 	g := newCdcGenState(r)
+	if !sc.NoFault && r.Bool(0.25) {
+		// directed stratum: a follower falls behind while the endpoint is down, is
+		// caught up by a snapshot install after the leader truncated its log, and
+		// then takes over leadership.
+		sc.Knobs.SnapshotThreshold = uint64(r.Range(3, 5))
+		sc.Knobs.SnapshotInterval = time.Second
+		add := func(op c25Op) { op.Gap = r.Intn(10); sc.Ops = append(sc.Ops, op) }
+		req := func() {
+			st, tx := g.request()
+			add(c25Op{K: "req", Client: r.Intn(2), Node: 0, Tx: tx, Stmts: st})
+		}
+		for i := r.Range(1, 3); i > 0; i-- {
+			req()
+		}
+		add(c25Op{K: "run", Ms: r.Range(200, 1500)})
+		if r.Bool(0.8) {
+			add(c25Op{K: "outage", Mode: []string{"reject", "acklost"}[r.Intn(2)]})
+		}
+		add(c25Op{K: "isolate", Node: -1})
+		for i := r.Range(6, 14); i > 0; i-- {
+			req()
+			if r.Bool(0.3) {
+				add(c25Op{K: "run", Ms: r.Range(300, 1500)})
+			}
+		}
+		add(c25Op{K: "snapshot", Node: 0})
+		add(c25Op{K: "run", Ms: r.Range(1000, 3000)})
+		add(c25Op{K: "heal"})
+		add(c25Op{K: "run", Ms: r.Range(1500, 4000)})
+		if r.Bool(0.8) {
+			add(c25Op{K: "stepdown", Node: -1})
+			add(c25Op{K: "run", Ms: r.Range(500, 2000)})
+		}
+		for i := r.Range(0, 3); i > 0; i-- {
+			req()
+		}
+		add(c25Op{K: "restore"})
+		for i := r.Range(0, 3); i > 0; i-- {
+			req()
+		}
+		return sc
+	}
 	nops := r.Range(15, 45)
 	nreq, nout, nlead, ncrash := 0, 0, 0, 0
 	down, parted, out := false, false, false
@@ -243,6 +285,15 @@ func droppedHandoff() int64 {
 	return 0
 }
 
+func storeStat(name string) int64 {
+	if m, ok := expvar.Get("store").(*expvar.Map); ok {
+		if v, ok := m.Get(name).(*expvar.Int); ok {
+			return v.Value()
+		}
+	}
+	return 0
+}
+
 // ---------------------------------------------------------------- run
 
 func c25Run(c *core.Ctx, raw json.RawMessage) {
@@ -285,6 +336,7 @@ func c25Run(c *core.Ctx, raw json.RawMessage) {
 	}, nil, nil)
 	defer verifx.ResetHooks()
 	dropped0 := droppedHandoff()
+	restores0 := storeStat("num_restores")
 
 	ep := &c25Endpoint{step: func() int { return s.StepN }}
 	var stops []chan struct{}
@@ -414,7 +466,7 @@ func c25Run(c *core.Ctx, raw json.RawMessage) {
 	}
 
 	busy := map[int]*sim.Task{}
-	downNode := 0
+	downNode, lastIso := 0, 0
 	opTimeout := 8 * time.Second
 	nAcked, nUnknown := 0, 0
 	for _, op := range sc.Ops {
@@ -458,9 +510,13 @@ func c25Run(c *core.Ctx, raw json.RawMessage) {
 			c.Log.Add("%d endpoint restored", s.StepN)
 		case "stepdown":
 			if l := s.Leader(); l != nil {
+				to := ""
+				if op.Node == -1 && lastIso != 0 && lastIso != l.Idx && s.Nodes[lastIso].Up {
+					to = s.Nodes[lastIso].ID // hand leadership to the node that was cut off
+				}
 				c.Fault("stepdown")
-				c.Log.Add("%d fault stepdown n%d", s.StepN, l.Idx)
-				s.Go("stepdown", func() { l.Store.Stepdown(true, "") })
+				c.Log.Add("%d fault stepdown n%d to %q", s.StepN, l.Idx, to)
+				s.Go("stepdown", func() { l.Store.Stepdown(true, to) })
 			}
 		case "isolate":
 			tgt := op.Node
@@ -472,6 +528,14 @@ func c25Run(c *core.Ctx, raw json.RawMessage) {
 				tgt = l.Idx
 				c.Probe("isolate_leader")
 			}
+			if tgt == -1 { // a follower
+				l := s.Leader()
+				if l == nil {
+					continue
+				}
+				tgt = l.Idx%3 + 1
+			}
+			lastIso = tgt
 			var rest []string
 			for i := 1; i <= 3; i++ {
 				if i != tgt {
@@ -621,6 +685,7 @@ func c25Run(c *core.Ctx, raw json.RawMessage) {
 	type xGroup struct {
 		Index  uint64
 		Commit int // 1-based position among the commits of this entry that changed rows
+		Failed int // statements of the same non-transactional request that failed before this commit
 		Events []xEvent
 		marked bool
 	}
@@ -643,7 +708,7 @@ func c25Run(c *core.Ctx, raw json.RawMessage) {
 				panic(err)
 			}
 			for i, g := range groups {
-				expected[k] = append(expected[k], &xGroup{Index: k, Commit: i + 1, Events: g})
+				expected[k] = append(expected[k], &xGroup{Index: k, Commit: i + 1, Failed: g.FailedBefore, Events: g.Events})
 				nGroups++
 			}
 			if len(groups) > 0 {
@@ -716,7 +781,7 @@ func c25Run(c *core.Ctx, raw json.RawMessage) {
 	firstMarked := func() bool {
 		mark()
 		for _, k := range order {
-			if g := expected[k][0]; !g.marked {
+			if g := expected[k][0]; !g.marked && g.Failed == 0 {
 				return false
 			}
 		}
@@ -759,6 +824,14 @@ func c25Run(c *core.Ctx, raw json.RawMessage) {
 	c.ProbeN("commit_groups_expected", nGroups)
 	c.ProbeN("multi_commit_entries", nMultiEntries)
 	c.ProbeN("loads_committed", nLoads)
+	nGap := 0
+	for _, k := range order {
+		if len(appliedBy[k]) < 3 {
+			nGap++
+		}
+	}
+	c.ProbeN("entries_some_node_got_only_by_snapshot", nGap)
+	c.ProbeN("snapshot_restores", int(storeStat("num_restores")-restores0))
 	c.ProbeN("deliveries_acked", nAck)
 	c.ProbeN("deliveries_ack_lost", nLost)
 	c.ProbeN("deliveries_rejected", rejected)
@@ -796,32 +869,39 @@ func c25Run(c *core.Ctx, raw json.RawMessage) {
 		return strings.Join(found, ", ")
 	}
 	type finding struct{ class, detail string }
-	var first, later []finding
+	var first, laterF []finding
 	for _, k := range order {
 		for _, g := range expected[k] {
 			if g.marked {
 				continue
 			}
 			elsewhere := where(g)
+			// "later": the entry had committed (or rolled back) row changes before this
+			// commit - the shape the defect on record needs.
+			later := g.Commit > 1 || g.Failed > 0
+			pos := fmt.Sprintf("commit #%d of %d inside this entry", g.Commit, len(expected[k]))
+			if g.Failed > 0 {
+				pos += fmt.Sprintf(", after %d failed statement(s) of the same non-transactional request", g.Failed)
+			}
 			f := finding{}
 			switch {
-			case elsewhere != "" && g.Commit == 1:
+			case elsewhere != "" && !later:
 				f = finding{"mislabelled-index", fmt.Sprintf("log index %d changed rows [%s]; they were never delivered under index %d, only as %s", k, identsOf(g.Events), k, elsewhere)}
 			case elsewhere != "":
-				f = finding{"mislabelled-later-commit", fmt.Sprintf("log index %d, commit #%d of %d inside this entry, changed rows [%s]; they were never delivered under index %d, only as %s", k, g.Commit, len(expected[k]), identsOf(g.Events), k, elsewhere)}
-			case g.Commit == 1 && len(appliedBy[k]) < 3:
+				f = finding{"mislabelled-later-commit", fmt.Sprintf("log index %d, %s, changed rows [%s]; they were never delivered under index %d, only as %s", k, pos, identsOf(g.Events), k, elsewhere)}
+			case !later && len(appliedBy[k]) < 3:
 				// some node never executed this entry (it received the result inside a
 				// snapshot), so its CDC service never saw the change
 				f = finding{"lost-change-not-captured-everywhere", fmt.Sprintf("log index %d changed rows [%s]; no delivery contains them (waited %v simulated after the last fault); only %s applied this entry from the log, the other node(s) received it inside a snapshot", k, identsOf(g.Events), 120*time.Second, c25Nodes(appliedBy[k]))}
-			case g.Commit == 1:
+			case !later:
 				f = finding{"lost-change", fmt.Sprintf("log index %d changed rows [%s]; no delivery contains them (waited %v simulated after the last fault; %d deliveries in total, indices seen: %s)", k, identsOf(g.Events), 120*time.Second, len(recs), c25Indices(seenIdx))}
 			default:
-				f = finding{"lost-later-commit", fmt.Sprintf("log index %d, commit #%d of %d inside this entry, changed rows [%s]; no delivery contains them (%d deliveries, indices seen: %s)", k, g.Commit, len(expected[k]), identsOf(g.Events), len(recs), c25Indices(seenIdx))}
+				f = finding{"lost-later-commit", fmt.Sprintf("log index %d, %s, changed rows [%s]; no delivery contains them (%d deliveries, indices seen: %s)", k, pos, identsOf(g.Events), len(recs), c25Indices(seenIdx))}
 			}
-			if g.Commit == 1 {
+			if !later {
 				first = append(first, f)
 			} else {
-				later = append(later, f)
+				laterF = append(laterF, f)
 			}
 		}
 	}
@@ -860,7 +940,7 @@ func c25Run(c *core.Ctx, raw json.RawMessage) {
 			}
 		}
 	}
-	for _, l := range [][]finding{first, orderF, later, orderZero} {
+	for _, l := range [][]finding{first, orderF, laterF, orderZero} {
 		if len(l) > 0 {
 			c.Violate(l[0].class, "%s", l[0].detail)
 			return
